@@ -12,7 +12,7 @@ use std::f64::consts::PI;
 pub fn monitor() -> Monitor {
   Monitor { id: "C12",
     rule: "polygons: 3..9 vertices on sorted bearings (gaps in [0.05, 0.95 pi]) around a centre at radius R (convex, inscribed in a small circle) or R x U(0.3,1) (star-shaped), either winding; R drawn per decade from 1e-10 rad to 0.79 rad, query depth matched so that R/cell is in [0.02, 40]; centres uniform, near meridians k.pi/4 (incl. lon ~ 0), near the transition latitude, 1 in 6 inside a polar cap astride lon = 0 or another seam meridian, never within R + 0.02 rad of a pole; both exact_solution values. Oracles: no panic / abnormal exit, well formed, every vertex's cell covered, convex & full => 4 vertices + centre inside (half-space margin >= -1e-12), R < 0.3 => cell centres within r + 2 x 1.08/nside of EVERY containing cone tried (the generation circle and, per edge, a cone of radius < 0.3 centred up to 0.28 rad on the inner side of the edge, i.e. nearly the edge's half-space), Polygon::contains == half-space oracle for points with |margin| > 1e-9 (uniform on the sphere and within 1.5 R). Interior witnesses missed are information only. Non-trivial = polygon crossing lon = 0, a meridian k.pi/2 or the transition latitude, clockwise winding, R below one cell, or R < 1e-6 rad.",
-    assumptions: &["half-space oracle for convex polygons (refm::convex_margin)", "Layer::hash (C01) locates vertices"],
+    assumptions: &["half-space oracle for convex polygons in a gnomonic chart computed from coordinate differences (refm::convex_margin_acc; relative accuracy ~1e-15 at every polygon size)", "Layer::hash (C01) locates vertices"],
     run, replay }
 }
 
@@ -40,7 +40,7 @@ pub fn gen_poly(rng: &mut Rng) -> Option<Case> {
   let cw = rng.coin();
   if cw { pts.reverse(); }
   for p in pts.iter() { vl.push(p.0); vb.push(p.1); }
-  Some(Case::new("poly").u("depth", depth as u64).b("convex", convex).b("cw", cw).f("lon", lon).f("lat", lat).f("R", rmax).fl("vl", &vl).fl("vb", &vb).u("s", rng.next() >> 1))
+  Some(Case::new("poly").u("depth", depth as u64).b("convex", convex).b("cw", cw).f("lon", lon).f("lat", lat).f("R", rmax).fl("vl", &vl).fl("vb", &vb).u("s", rng.next() >> 1).s("cls", &format!("R~1e{}", rmax.log10().floor() as i32)))
 }
 
 fn run(ctx: &mut Ctx, extra: &mut BTreeMap<String, String>) {
@@ -108,7 +108,7 @@ pub fn judge(ctx: &mut Ctx, c: &Case) {
       if convex && f {
         ctx.eval();
         let mut pts = ref_vertices(d, h).to_vec(); pts.push(ref_center(d, h));
-        for p in pts { let m = convex_margin(&poly, p); if m < -1e-12 { ctx.violation("cell-flagged-full-has-a-vertex-or-centre-outside-the-polygon", ce.clone().u("cd", d as u64).u("ch", h), format!("cell {}/{} point {:?} margin {:e}", d, h, p, m)); break; } }
+        for p in pts { let m = convex_margin_acc(&poly, (lon, lat), rmax, p); if m < -1e-12 { ctx.violation("cell-flagged-full-has-a-vertex-or-centre-outside-the-polygon", ce.clone().u("cd", d as u64).u("ch", h), format!("cell {}/{} point {:?} margin {:e}", d, h, p, m)); break; } }
       }
       if rmax < 0.3 {
         ctx.eval();
@@ -119,7 +119,7 @@ pub fn judge(ctx: &mut Ctx, c: &Case) {
       }
     }
     // interior witnesses: information only (not claimed)
-    if convex { let mut miss = 0; for _ in 0..40 { let p = point_at(lon, lat, rmax * rng.f(), rng.f() * TWO_PI); if convex_margin(&poly, p) > 1e-9 { if cover.get(depth, nested::hash(depth, p.0, p.1)).is_none() { miss += 1; } } } if miss > 0 { ctx.info("interior-witness-not-covered(not-claimed)"); } }
+    if convex { let mut miss = 0; for _ in 0..40 { let p = point_at(lon, lat, rmax * rng.f(), rng.f() * TWO_PI); if convex_margin_acc(&poly, (lon, lat), rmax, p) > 1e-9 { if cover.get(depth, nested::hash(depth, p.0, p.1)).is_none() { miss += 1; } } } if miss > 0 { ctx.info("interior-witness-not-covered(not-claimed)"); } }
     if ctx.samples.len() < 6 && hard && exact && c.gu("s") % 7 == 0 { ctx.sample(&ce, &format!("{} cells ({} full)", cells.len(), cells.iter().filter(|x| x.2).count())); }
   }
   // point-in-polygon predicate
@@ -129,8 +129,8 @@ pub fn judge(ctx: &mut Ctx, c: &Case) {
       Err(p) => ctx.violation("Polygon::new-panics", c.clone(), p),
       Ok(pg) => for k in 0..60 {
         let p = if k % 3 == 0 { rng.sphere() } else { point_at(lon, lat, rmax * 1.5 * rng.f(), rng.f() * TWO_PI) };
-        let m = convex_margin(&poly, p);
-        if m.abs() < 1e-9 { continue; }
+        let m = convex_margin_acc(&poly, (lon, lat), rmax, p);
+        if m.abs() < 1e-12 { continue; }
         // the documented pole heuristic: points within 0.02 rad of a pole are outside the claim
         ctx.eval();
         match catch(|| pg.contains(&Coo3D::from_sph_coo(p.0, p.1))) {
